@@ -100,7 +100,7 @@ def make_chaos(world, b):
                         self._n("place_on_full")
                 delta = 0
                 if r.random() < pol.get("p_future", 0):
-                    delta = r.choice([1, 1, 2, 3, 5])
+                    delta = r.choice(pol.get("future_deltas") or [1, 1, 2, 3, 5])
                     self._n("place_future")
                 wid = w.id if pol.get("ids") else None
                 if r.random() < pol.get("p_batch", 0):
